@@ -1772,6 +1772,11 @@ def check(program, rep):
     rep.guard("C04-R4", r4_aliases, program, rep)
     rep.guard("C04-R5", r5_contract, program, rep)
     rep.guard("C04-R6", r6_empty, program, rep)
+    # arguments handed to package functions under the wrong name / same-
+    # named optional parameters not passed on (NAMELINK, DESIGN.md 9.13)
+    from .. import namelink as _nl
+    rep.guard("C04-R7", _nl.rule, program, rep, "C04-R7",
+              [m for m in sorted(program.modules) if m.startswith("rig.routing_table")])
     return finish(rep, program, EXPLANATION, NOT_DECIDED,
                   trusted=["bit-parallel truth-table extraction (bits.py)",
                            "LININV engine"])
